@@ -165,8 +165,10 @@ int process_tarball(sqfs_dir_iterator_t *it, sqfs_writer_t *sqfs)
 		ret = it->next(it, &ent);
 		if (ret > 0)
 			break;
-		if (ret < 0)
+		if (ret < 0) {
+			fputs("stdin: error reading tar entry\n", stderr);
 			return -1;
+		}
 
 		if (ent->mtime < 0)
 			ent->mtime = 0;
